@@ -113,6 +113,14 @@ func (s *SSTableManager) currentSSTable() sstables.SSTableReaderI {
 	return s.currentReader
 }
 
+// isOldestTable tells whether the given table path is the oldest table that is currently live.
+func (s *SSTableManager) isOldestTable(path string) bool {
+	s.managerLock.RLock()
+	defer s.managerLock.RUnlock()
+
+	return len(s.allSSTableReaders) > 0 && s.allSSTableReaders[0].BasePath() == path
+}
+
 func (s *SSTableManager) candidateTablesForCompaction(compactionMaxSizeBytes uint64, compactionRatio float32) compactionAction {
 	s.managerLock.RLock()
 	defer s.managerLock.RUnlock()
